@@ -22,7 +22,9 @@ import PcbV.Gen.Errors
                            ↦ `EPos` (`prog i`: inside statement i; `direct`; `zero`);
       `Program.get_line_number(pos)` ↦ `lineOf` (the last line marker at or before statement i);
     * `on_error` (None and 0 are treated alike by the code) ↦ `onErr : Nat`, 0 = no trap;
-    * `values.error_handler._do_raise` (set by ON ERROR GOTO n, n ≠ 0; never reset by RUN) ↦ `softRaise`.
+    * `values.error_handler._do_raise` (set by ON ERROR GOTO n, n ≠ 0; reset by ON ERROR GOTO 0 and by
+      `Interpreter.clear`, i.e. RUN / CLEAR / NEW / CHAIN; NOT reset when RESUME without error switches the
+      trap off) ↦ `softRaise`.
 
   `fixed = true` is the repaired code: `trap_error` forgets `error_resume` when an error is NOT trapped
   (the error occurred inside the handler, or is the re-raise of ON ERROR GOTO 0, or is No RESUME).
@@ -219,8 +221,11 @@ def execStmt (code : List Instr) (s : St) : Stmt → Outcome
   | .inc => advance { s with g := s.g + 1 }
   | .endIf n => if s.g > n then doEnd s else advance s
   | .run =>
+    -- `run_`: on_error = 0, handle mode off, stacks cleared, then `_clear_all` → `Interpreter.clear`:
+    -- ERR/ERL 0, trapping state initialised, soft handling of math errors switched back on,
+    -- GOSUB stack dropped, variables cleared
     .next { s with run := true, pc := 0, flags := fun _ => false, g := 0, gosubs := [], onErr := 0,
-                   handling := false, resume := none, errNum := 0, errPos := .zero }
+                   handling := false, resume := none, errNum := 0, errPos := .zero, softRaise := false }
 
 /-- the statement under the pointer -/
 def fetch (code : List Instr) (dl : List Stmt) (s : St) : Option Stmt :=
